@@ -7,6 +7,7 @@
 
 mod casm_ref;
 mod checks;
+mod classes;
 mod comp;
 mod corpus;
 mod exec;
@@ -78,9 +79,16 @@ fn main() {
             let (sig, min) = frontend::minimize_c09(&text, args.get(3).is_some());
             println!("{sig}\n{min}");
         }
+        "debug-gen-contract" => {
+            for i in 0..args[2].parse::<u64>().unwrap() {
+                let mut rng = rng::Rng::derive(seed, &[1906, i]);
+                println!("// ---- {i}\n{}", classes::generate_contract(&mut rng, i));
+            }
+        }
         "debug-diag" => {
             let text = fs::read_to_string(&args[2]).unwrap();
-            let db = comp::build_db(&comp::Config::DEFAULT, comp::Plugins::Default);
+            let plugins = if args.get(3).is_some() { comp::Plugins::Starknet } else { comp::Plugins::Default };
+            let db = comp::build_db(&comp::Config::DEFAULT, plugins);
             let c = comp::virtual_crate("test", &text, &comp::latest_settings(), None);
             let (s, e) = comp::diagnostics(&db, &[c]);
             println!("errors={e}\n{s}");
